@@ -19,16 +19,23 @@ READY = True
 DRIVERS = ['drv_c02']
 MANIFEST = dict(
     technique='Lean 4 invariant proofs by induction over transaction histories on a transcribed model of the provider '
-              'transactions + differential correspondence with ProviderMdib on random histories',
-    text='Properties/C02.lean proves for the model of all seven transaction kinds: MdibVersion +1 exactly on a changing '
-         'commit and unchanged otherwise, per-object version counters never decrease (also across delete/re-create via the '
-         'saved-version lookups), and the referential well-formedness invariant is preserved by every script, for all '
-         'histories. The model is executed side by side with the real ProviderMdib (classic and entity interface) and '
-         'compared on outcome, TransactionResult and full table dumps after every transaction.',
+              'transactions (all seven kinds, classic and entity interface) + differential correspondence with ProviderMdib on '
+              'random histories',
+    text='Properties/C02.lean (23 theorems): MdibVersion +1 exactly on a commit and unchanged on empty / aborted / rejected '
+         'transactions (all kinds); the referential well-formedness invariant (every state refers to an existing descriptor with '
+         'its current version, one single state per descriptor, parents exist, unique handles) is preserved by every state and '
+         'context script and by every descriptor script under two decidable side conditions (kind discipline KOK; entities '
+         'written are well-formed Entity objects, DScriptOK), lifted to histories; per-object version counters (live or saved) '
+         'never decrease, also across delete / re-create, and a content change strictly increases them. The model is executed '
+         'side by side with the real ProviderMdib on random histories (hot handles, stale entities, related objects in both '
+         'orders, aborts, rejected calls) and compared on outcome, TransactionResult and full table dumps incl. the saved-version '
+         'lookups after every transaction; the oracle evaluates the clauses of the property on snapshots of the real tables.',
     note='Trusted: Lean kernel, harness/txharness.py (generator, canonicaliser: container content abstracted to an interned '
-         'body id; DeterminationTime and the clock time excluded), role-provider pre_commit hooks not installed. '
-         'Scripts use adjust_version_counter=True only. See DESIGN.md for the clauses proved under restrictions.',
-    ref='5 C02')
+         'body id; DeterminationTime and the self-updating clock time excluded), role-provider pre_commit hooks not installed, '
+         'scripts use adjust_version_counter=True only, write_entities is expanded by the harness after its all-or-nothing '
+         'pre-check. Descriptor-transaction theorems are _partial (hypotheses KOK, DScriptOK; negative witnesses for the '
+         'unconditional statements are proved).',
+    ref='9 C02')
 RULE = ('one case = one transaction script (state / context / descriptor kind, classic or entity calls, optional abort or '
         'rejected call) executed inside a history on the real ProviderMdib; distinct by the canonical script + position; '
         'non-trivial = the script contains at least one call (committed, aborted or rejected)')
